@@ -428,11 +428,16 @@ class Oracle:
             if len(variants) > budget:
                 variants = rng.sample(variants, budget)
             for f, nl in variants:
+                to_empty = (nl == [])
+                if to_empty:
+                    nl = ['']          # what an empty name-list on the wire parses to (ReadBuf.read_list)
                 p2 = dict(peer); p2[f] = nl
                 P = mk_policy_fields(pol)
                 r = impl_eval(P, p2)
                 n += 1
-                if not r[0]:
+                if not r[0] and to_empty:
+                    self.viol('monotone/subset-shrink-to-empty', 'peer passes, but fails after its %s list %r shrinks to the empty list (parsed as %r) under subset mode' % (f, peer[f], nl), pol, p2)
+                elif not r[0]:
                     self.viol('monotone/subset-shrink/%s' % f, 'peer passes, but fails after its %s list %r shrinks to %r under subset mode' % (f, peer[f], nl), pol, p2)
         if pol['larger']:
             variants = []
